@@ -1,41 +1,68 @@
 #!/usr/bin/env python3
 """tools/seedmatrix.py [seed-dir-names...] — run EVERY property's rules against each seeded change
-(in memory, through the overlay; /repo is not touched) and print which properties / rules report it."""
-import json, os, sys, subprocess, tempfile
+(in memory, through the overlay; /repo is not touched) and print which properties / rules report it.
+With --write-meta also (re)writes seeded/<id>/meta.json from the result."""
+import json, os, sys, subprocess, tempfile, re
 from concurrent.futures import ThreadPoolExecutor
 sys.path.insert(0, os.path.dirname(os.path.abspath(__file__)))
 import sweep
 VERIF = sweep.VERIF
-props = subprocess.check_output([sweep.BIN, "-list"], text=True).split()
-seeds = sys.argv[1:] or sorted(os.listdir(os.path.join(VERIF, "seeded")))
+args = [a for a in sys.argv[1:] if not a.startswith("--")]
+write_meta = "--write-meta" in sys.argv
+seeds = args or sorted(d for d in os.listdir(os.path.join(VERIF, "seeded")) if re.match(r"C\d\d-[A-Z]$", d))
+titles = {}
+for l in open(os.path.join(VERIF, "properties.jsonl")):
+    d = json.loads(l); titles[d["id"]] = d["title"]
 
-def one(job):
-    seed, prop, ov = job
+def one(seed):
+    ov = sweep.overlay_from_patch(os.path.join(VERIF, "seeded", seed, "patch.diff"))
+    if ov is None:
+        return seed, None, []
     with tempfile.NamedTemporaryFile("w", suffix=".json", delete=False) as f:
         json.dump(ov, f); name = f.name
     try:
-        r = subprocess.run([sweep.BIN, "-prop", prop, "-overlay", name, "-no-evidence"], capture_output=True, text=True, timeout=900)
+        r = subprocess.run([sweep.BIN, "-prop", "all", "-overlay", name, "-no-evidence"], capture_output=True, text=True, timeout=1800)
     finally:
         os.unlink(name)
-    out = r.stdout + r.stderr
-    rules = sorted({l.split()[1] for l in out.splitlines() if l.strip().startswith(("violated", "undecided"))})
-    first = next((l.strip()[:260] for l in out.splitlines() if l.strip().startswith(("violated", "undecided"))), "")
-    return seed, prop, r.returncode != 0, rules, first
+    lines = [l for l in (r.stdout + r.stderr).splitlines() if re.match(r"(C\d\d) (violated|undecided) ", l) or l.startswith("LOAD")]
+    return seed, ov, lines
 
-jobs = []
-for s in seeds:
-    ov = sweep.overlay_from_patch(os.path.join(VERIF, "seeded", s, "patch.diff"))
+with ThreadPoolExecutor(max_workers=6) as ex:
+    results = list(ex.map(one, seeds))
+for seed, ov, lines in results:
     if ov is None:
-        print(s, "PATCH DOES NOT APPLY"); continue
-    for p in props:
-        jobs.append((s, p, ov))
-res = {}
-with ThreadPoolExecutor(max_workers=10) as ex:
-    for seed, prop, fired, rules, first in ex.map(one, jobs):
-        if fired:
-            res.setdefault(seed, []).append((prop, rules, first))
-for s in seeds:
-    hits = res.get(s, [])
-    print("%s: %s" % (s, ", ".join("%s[%s]" % (p, "+".join(r)) for p, r, _ in hits) or "MISSED"))
-    for p, r, first in hits:
-        print("     %s %s" % (p, first))
+        print(seed, "PATCH DOES NOT APPLY"); continue
+    by = {}
+    for l in lines:
+        m = re.match(r"(C\d\d) (violated|undecided) (\S+) ", l)
+        if m:
+            by.setdefault(m.group(1), set()).add(m.group(3))
+    print("%s: %s" % (seed, ", ".join("%s[%s]" % (p, "+".join(sorted(r))) for p, r in sorted(by.items())) or ("MISSED" if not lines else lines[0][:200])))
+    for l in lines[:3]:
+        print("     " + l[:260])
+    if write_meta:
+        d = os.path.join(VERIF, "seeded", seed)
+        mp = os.path.join(d, "meta.json")
+        old = json.load(open(mp)) if os.path.exists(mp) else {}
+        prop = seed.split("-")[0]
+        notes = open(os.path.join(d, "notes.md")).read() if os.path.exists(os.path.join(d, "notes.md")) else ""
+        needs = old.get("what_it_needs_to_manifest")
+        if not needs:
+            m = re.search(r"(?is)(what (it|is) need(s|ed)?.{0,40}?manifest.*?)(\n#+ |\Z)", notes)
+            needs = (m.group(1) if m else notes)[:1800]
+        meta = {
+            "seed": seed,
+            "property_broken": prop,
+            "property_title": titles.get(prop, ""),
+            "files_touched": [l[6:].strip() for l in open(os.path.join(d, "patch.diff")) if l.startswith("+++ b/")],
+            "demonstration": sorted(f for f in os.listdir(d) if f.endswith("_test.go")),
+            "what_it_needs_to_manifest": needs,
+            "produced_by": "independent sub-agent given only the property text and a scratch git worktree of /repo (nothing from /verif)",
+            "confirmed_by_me": old.get("confirmed_by_me") or ("tools/seedverify.sh %s %s in a fresh scratch worktree: patch applies, `go build ./...` ok, whole existing suite passes with the change, demonstration FAILS with the change and PASSES without it; worktree removed afterwards" % (prop, seed.split("-")[1])),
+            "rebased_onto_fix_commits": old.get("rebased_onto_fix_commits", False),
+            "checks_run": "tools/seedmatrix.py (the patched files are handed to every property's rules through the loader's overlay — the same analysis as `git -C /repo apply`, run, `git -C /repo checkout -- .`, without touching /repo); spot-checked with tools/seedcheck.sh on /repo itself",
+            "detected_by": sorted(by),
+            "reports": [l[:400] for l in lines[:6]],
+            "status": "caught" if by else "missed",
+        }
+        json.dump(meta, open(mp, "w"), indent=1, ensure_ascii=False)
